@@ -10,13 +10,30 @@ Oracle : every line's width <= columns; every line but the last == columns; no l
 import itertools
 
 from mc import cells as C
+from mc import repeat
 from mc.runner import Acc, Report
 
 LEVEL = "model_checking"
-W = {"a": 1, "Ｅ": 2, "̀": 0, "漢": 2, " ": 1}
+class _Widths(dict):
+    """Column widths beyond the small alphabet: East Asian wide / fullwidth = 2, combining marks = 0, everything else 1."""
+
+    def __missing__(self, c):
+        import unicodedata
+
+        w = 0 if unicodedata.combining(c) else (2 if unicodedata.east_asian_width(c) in ("W", "F") else 1)
+        self[c] = w
+        return w
 
 
-def reference(fc, columns):
+W = _Widths({"a": 1, "Ｅ": 2, "̀": 0, "漢": 2, " ": 1})
+
+
+PAD = "\0pad"
+
+
+def reference(fc, columns, mark=False):
+    """Greedy wrap. mark=True: the padding space put in front of a double-width character that does not fit is returned as PAD
+    (a real space at the end of a line must not be mistaken for it)."""
     lines, cur, w = [], [], 0
     for c, a in fc:
         cw = W[c]
@@ -24,7 +41,7 @@ def reference(fc, columns):
             continue
         if w + cw > columns:
             if w < columns:
-                cur.append((" ", a))
+                cur.append((PAD if mark else " ", a))
             lines.append(cur)
             cur, w = [], 0
         cur.append((c, a))
@@ -67,8 +84,8 @@ def check(acc, f, fc, columns, case):
         return
     # losslessness including zero-width characters: drop the paddings the reference put in
     flat = []
-    for line, ref in zip(got, want + [[]]):
-        pad = bool(ref) and ref[-1][0] == " "
+    for line, ref in zip(got, reference(fc, columns, mark=True) + [[]]):
+        pad = bool(ref) and ref[-1][0] == PAD
         cells_ = list(line)
         if pad:
             # remove the last space (the padding); zero-width characters may follow it
@@ -79,6 +96,29 @@ def check(acc, f, fc, columns, case):
         flat.extend(cells_)
     if flat != fc:
         acc.failure("C11:characters_lost_or_reordered", case, "lines %r do not concatenate to %r" % (got, fc))
+
+
+def shard_scale(args):
+    """Sizes far beyond small (cells.scale_specs) wrapped at narrow, ordinary and very wide limits, and at limits next to the value's
+    own width."""
+    tier, seed, idx, nshards = args
+    acc = Acc(seed=seed, sample_stride=4999)
+    specs = C.scale_specs(tier == "thorough")
+    for si in range(idx, len(specs), nshards):
+        spec = specs[si]
+        f = C.build(spec)
+        fc = C.spec_cells(spec)
+        snap = C.snapshot(f)
+        total = sum(W[c] for c, _ in fc)
+        shown = {"scale_value": {"characters": len(fc), "runs": len(spec), "first_runs": C.show_spec(spec[:3])}}
+        for columns in sorted({2, 3, 7, 20, 41, 79, 80, 81, 132, 200, 255, 256, 257, 1000, 2500, max(2, total - 1), max(2, total), total + 1}):
+            case = dict(shown, columns=columns)
+            acc.case(total > columns, key=("scale", si, columns), sample=case)
+            acc.transitions += 1
+            check(acc, f, fc, columns, case)
+        if C.snapshot(f) != snap:
+            acc.failure("C11:operand_changed", shown, "")
+    return acc.export()
 
 
 def shard(args):
@@ -202,9 +242,12 @@ def shard(args):
 
 def run(ctx):
     rep = Report()
+    repeat.run_into(ctx, rep, "C11")
     ns = 256 if ctx.thorough else 64
     for d in ctx.pmap(shard, [(ctx.tier, ctx.seed, i, ns) for i in range(ns)]):
         rep.merge(d)
+    for d in ctx.pmap(shard_scale, [(ctx.tier, ctx.seed, i, 32) for i in range(32)]):
+        rep.merge(d, "scale_sweep")
     rep.validated = rep.n
     maxlen, maxcol = (6, 7) if ctx.thorough else (5, 5)
     rep.rule = (
